@@ -86,10 +86,24 @@ theorem clitOr_match (ls : List Txt) (g w rest l : Txt) (c : Nat) (w' : Txt) (hw
   · have h' : ¬ l' = l := fun e => h e.symm
     simp [h, h']
 
+/-- what follows does not start with a letter -/
+def NoAlphaHead (rest : Txt) : Prop := ∀ c r, rest = c :: r → isAlphaC c = false
+
+theorem Follow.noAlphaHead {rest : Txt} (hf : Follow rest) : NoAlphaHead rest := by
+  intro c r h
+  rcases hf.head c r h with hb | rfl | rfl | rfl
+  · simp [isBlankC] at hb; rcases hb with rfl | rfl <;> decide
+  all_goals decide
+
+theorem lowerC_ne_alpha (c a : Nat) (hc : isAlphaC c = false) (ha : isAlphaC a = true) : lowerC c ≠ a := by
+  intro h
+  have := (lowerC_nonalpha c hc).2
+  rw [h, ha] at this; cases this
+
 /-- a caseless literal longer than the text whose next character is a letter does not match when
-    the text is followed by a gap, a comma, a comment or the end -/
-theorem dropPrefixCI_none_follow (w l rest : Txt) (hlen : w.length < l.length)
-    (hnext : ∀ a, l[w.length]? = some a → isAlphaC a = true) (hf : Follow rest) :
+    the text is not followed by a letter -/
+theorem dropPrefixCI_none_nonalpha (w l rest : Txt) (hlen : w.length < l.length)
+    (hnext : ∀ a, l[w.length]? = some a → isAlphaC a = true) (hf : NoAlphaHead rest) :
     dropPrefixCI (w ++ rest) l = none := by
   induction w generalizing l with
   | nil =>
@@ -100,11 +114,7 @@ theorem dropPrefixCI_none_follow (w l rest : Txt) (hlen : w.length < l.length)
       cases rest with
       | nil => rfl
       | cons c r =>
-        have : lowerC c ≠ a := by
-          rcases hf.head c r rfl with hb | rfl | rfl | rfl
-          · simp [isBlankC] at hb
-            rcases hb with rfl | rfl <;> (intro h; subst h; simp [lowerC, isAlphaC] at ha)
-          all_goals (intro h; subst h; simp [lowerC, isAlphaC] at ha)
+        have := lowerC_ne_alpha c a (hf c r rfl) ha
         simp [dropPrefixCI, this]
   | cons c w ih =>
     cases l with
@@ -114,6 +124,11 @@ theorem dropPrefixCI_none_follow (w l rest : Txt) (hlen : w.length < l.length)
       split
       · exact ih l (by simpa using hlen) (fun b hb => hnext b (by simpa using hb))
       · rfl
+
+theorem dropPrefixCI_none_follow (w l rest : Txt) (hlen : w.length < l.length)
+    (hnext : ∀ a, l[w.length]? = some a → isAlphaC a = true) (hf : Follow rest) :
+    dropPrefixCI (w ++ rest) l = none :=
+  dropPrefixCI_none_nonalpha w l rest hlen hnext hf.noAlphaHead
 
 theorem alpha_of_lowerC_alpha (c : Nat) (h : isAlphaC (lowerC c) = true) : isAlphaC c = true := by
   by_cases hc : 65 ≤ c ∧ c ≤ 90
@@ -179,7 +194,7 @@ theorem covered_cond (last : Bool) (c : Txt) (hc : lower c ∈ condLits) : Cover
     · intro gs hgs
       have : gs = [] := hgs
       subst this
-      simpa [joinInner] using (goodOp_cond c1 c2 hc).any last
+      simpa [joinInner] using ((goodOp_cond c1 c2 hc).any last).toRest
     · simp [processOperand, expectOp]
 
 end OsacaVerif.ParseA64
